@@ -2,6 +2,7 @@
    proofs/BumpProofs.v, with Print Assumptions beneath. *)
 From Coq Require Import ZArith List Bool.
 Require Import NS.theories.Generated NS.theories.Bump NS.proofs.BumpProofs.
+Require Import NS.theories.GenArenaStr NS.theories.BumpVec NS.proofs.BumpVecProofs.
 Import ListNotations.
 Open Scope Z_scope.
 
@@ -99,4 +100,56 @@ Example demo_ops_ok : Forall op_ok demo_ops.
 Proof. repeat constructor; cbn; try discriminate. Qed.
 Example demo_reaches :
   observe (crun true (cinit 4096 524288) demo_ops) = (66138, 131072, 2, 93).
+Proof. vm_compute. reflexivity. Qed.
+
+(* ---- the arena's client containers (src/arena/string.rs; theories/BumpVec.v) ---- *)
+
+(* Histories that interleave the raw block operations with container operations
+   (ArenaString / Vec<T, &Arena>: new, with_capacity, from_str, clone, formatted, append,
+   reserve, reserve_exact, replace_range, replace_once, shrink_to_fit, clear) keep the same
+   invariant: a container's buffer is a ledger block, so it lies inside [0, offset), is
+   aligned, and is disjoint from every other live block and every other container's
+   buffer, whether it grew in place or was relocated. *)
+Theorem C11_containers_inv_reachable :
+  forall dbg base cap0 ops, Forall kop_ok ops -> Inv (k_c (krun dbg (kinit base cap0) ops)).
+Proof. exact kinv_reachable_lemma. Qed.
+Print Assumptions C11_containers_inv_reachable.
+
+(* The two copies of vec_replace_impl, made through the buffer address taken after the
+   reserve, are the list-level splice: prefix unchanged, replacement at off, old tail
+   behind it; and no byte outside the container's new extent is written (so, with
+   C11_blocks_disjoint, every other live block is untouched).  The relocation itself
+   keeps the old bytes by C11_contents_preserved (the buffer is grown by an OGrow step). *)
+Theorem C11_replace_edit_is_splice :
+  forall m base esz off del srcl tail data,
+  0 < esz -> 0 <= off -> 0 <= del -> 0 <= tail -> Z.of_nat (length data) = srcl * esz ->
+  let m' := replace_edit m base esz off del srcl tail data in
+  (forall i, 0 <= i < off * esz -> m' (base + i) = m (base + i)) /\
+  (forall i, 0 <= i < srcl * esz -> m' (base + off * esz + i) = nth (Z.to_nat i) data 0) /\
+  (forall i, 0 <= i < tail * esz ->
+     m' (base + (off + srcl) * esz + i) = m (base + (off + del) * esz + i)) /\
+  (forall x, x < base + off * esz \/ base + (off + srcl + tail) * esz <= x -> m' x = m x).
+Proof. exact replace_edit_splice. Qed.
+Print Assumptions C11_replace_edit_is_splice.
+
+(* Tie to the source (translator/gen_arenastr.py): vec_replace_impl takes the buffer address
+   after the reserve call and clamps the range as BumpVec.vreplace does. *)
+Example src_replace_shape :
+  src_replace_ptr_after_reserve = true /\ src_replace_clamps_range = true.
+Proof. vm_compute. split; reflexivity. Qed.
+
+(* Non-vacuity: "hello world" straight out of from_str (capacity 11), a 64-byte block
+   allocated behind it, then replace_range(0..5, "goodbye, cruel"): the string is relocated
+   behind the block and reads "goodbye, cruel world". *)
+Definition demo_kops : list kop :=
+  [KFrom [104;101;108;108;111;32;119;111;114;108;100]; KRaw (OAlloc 64 0); KRaw (OWrite 0 5);
+   KReplace 0 0 5 [103;111;111;100;98;121;101;44;32;99;114;117;101;108]].
+Example demo_kops_ok : Forall kop_ok demo_kops.
+Proof. repeat constructor; cbn; try discriminate. Qed.
+Example demo_kreaches :
+  let k := krun true (kinit 4096 262144) demo_kops in
+  match k_vecs k with
+  | [v] => (v_off (k_c k) v, v_capb (k_c k) v, vbytes (k_c k) v)
+  | _ => (0, 0, [])
+  end = (75, 22, [103;111;111;100;98;121;101;44;32;99;114;117;101;108;32;119;111;114;108;100]).
 Proof. vm_compute. reflexivity. Qed.
